@@ -46,6 +46,7 @@ package acl
 //@ spec exempt(c string) bool = lower(c) == "ping" || lower(c) == "echo" || lower(c) == "hello" || lower(c) == "auth" || lower(c) == "ack"
 
 //@ func getUnauthorized trusted props C06
+//@   ensures result == nil || fresh(result)
 //@   modifies nothing
 
 // Clauses are stated for commands without sub-command (subCommand is the zero value): with a sub-command the name checked is
@@ -59,6 +60,25 @@ package acl
 //@   ensures {C06} command-allowed: result == nil && acl.Config.RequirePass && subCommand == zeroval("internal.SubCommand") && !exempt(command.Command) ==> old(exists i int :: 0 <= i && i < len(acl.Connections[conn].User.IncludedCommands) && (acl.Connections[conn].User.IncludedCommands[i] == "*" || acl.Connections[conn].User.IncludedCommands[i] == command.Command))
 //@   ensures {C06} command-not-excluded: result == nil && acl.Config.RequirePass && subCommand == zeroval("internal.SubCommand") && !exempt(command.Command) ==> !old(exists i int :: 0 <= i && i < len(acl.Connections[conn].User.ExcludedCommands) && (acl.Connections[conn].User.ExcludedCommands[i] == "*" || acl.Connections[conn].User.ExcludedCommands[i] == command.Command))
 //@   ensures {C06} nokeys: result == nil && acl.Config.RequirePass && subCommand == zeroval("internal.SubCommand") && !exempt(command.Command) && acl.Connections[conn].User.NoKeys ==> true
+//@   ensures {C06,C11} enabled: result == nil && acl.Config.RequirePass && subCommand == zeroval("internal.SubCommand") && !exempt(command.Command) ==> old(acl.Connections[conn].User.Enabled)
+//@   modifies $lock
+// every read key and every write key must match one of the user's patterns: stated over the locals of the function at each
+// return (assert @return), through the contract of notMatching
+//@   assert @return {C06} readkeys: result == nil && acl.Config.RequirePass && subCommand == zeroval("internal.SubCommand") && !exempt(command.Command) && !(exists c int :: 0 <= c && c < len(categories) && categories[c] == "pubsub") ==> (forall i int :: 0 <= i && i < len(readKeys) ==> (exists j int :: 0 <= j && j < len(connection.User.IncludedReadKeys) && globmatch(acl.GlobPatterns[connection.User.IncludedReadKeys[j]], readKeys[i])))
+//@   assert @return {C06} writekeys: result == nil && acl.Config.RequirePass && subCommand == zeroval("internal.SubCommand") && !exempt(command.Command) && !(exists c int :: 0 <= c && c < len(categories) && categories[c] == "pubsub") ==> (forall i int :: 0 <= i && i < len(writeKeys) ==> (exists j int :: 0 <= j && j < len(connection.User.IncludedWriteKeys) && globmatch(acl.GlobPatterns[connection.User.IncludedWriteKeys[j]], writeKeys[i])))
+//@   assert @return {C06} nokeys-honoured: result == nil && acl.Config.RequirePass && subCommand == zeroval("internal.SubCommand") && !exempt(command.Command) && !(exists c int :: 0 <= c && c < len(categories) && categories[c] == "pubsub") && connection.User.NoKeys ==> len(readKeys) + len(writeKeys) == 0
+//@   loop 2
+//@     invariant {C06} channels: forall i int :: 0 <= i && i <= rangeindex ==> (exists j int :: 0 <= j && j < len(connection.User.IncludedPubSubChannels) && globmatch(acl.GlobPatterns[connection.User.IncludedPubSubChannels[j]], rangeslice[i])) && !(exists j int :: 0 <= j && j < len(connection.User.ExcludedPubSubChannels) && globmatch(acl.GlobPatterns[connection.User.ExcludedPubSubChannels[j]], rangeslice[i]))
+
+// notMatching: the result is empty exactly when every key matches one of the patterns.
+//@ func (*ACL).notMatching props C06
+//@   ensures {C06} empty-iff-all-match: (len(result) == 0) <==> (forall i int :: 0 <= i && i < len(keys) ==> (exists j int :: 0 <= j && j < len(globs) && globmatch(acl.GlobPatterns[globs[j]], keys[i])))
+//@   ensures result == nil || fresh(result)
+//@   modifies nothing
+//@   loop 0
+//@     invariant -1 <= rangeindex && rangeindex < len(keys) && (notAllowed == nil || fresh(notAllowed))
+//@     invariant allmatch: len(notAllowed) == 0 ==> (forall i int :: 0 <= i && i <= rangeindex ==> (exists j int :: 0 <= j && j < len(globs) && globmatch(acl.GlobPatterns[globs[j]], keys[i])))
+//@     invariant somemiss: len(notAllowed) > 0 ==> (exists i int :: 0 <= i && i <= rangeindex && !(exists j int :: 0 <= j && j < len(globs) && globmatch(acl.GlobPatterns[globs[j]], keys[i])))
 
 // ---- user records ------------------------------------------------------------------------------
 
